@@ -35,6 +35,10 @@ def setup():
     for c in m1_ops.configs("quick"):
         s = m1_ops.run_model(c)
         print("tlc  %-22s generated=%d distinct=%d cached=%s %.1fs" % (c["name"], s["generated"], s["distinct"], s["cached"], s["wall_s"]))
+    for c in m1_ops.RE["quick"]:
+        for asrt in (False, True):
+            s = m1_ops.run_re_model(c, asrt)
+            print("tlc  %-22s generated=%d distinct=%d cached=%s %.1fs" % (s["tag"], s["generated"], s["distinct"], s["cached"], s["wall_s"]))
     for s in m1_ops.run_small("quick"):
         print("tlc  %-22s generated=%d distinct=%d cached=%s %.1fs" % (s["tag"], s["generated"], s["distinct"], s["cached"], s["wall_s"]))
     from . import m2_query
@@ -100,6 +104,35 @@ def _m1_common(res, prop):
             res.extra["simulated_histories"] = {"behaviours": out["tlc"].get("simulated_behaviours"), "calls_replayed": out["n"],
                                                 "calls_continuing_on_live_objects": out["continued"], "longest_chain": out["longest_chain"]}
     res.extra["configs"] = [dict(o["config"]) for o in outs if o["families"][0] == "mixin" and not o["asrt"]]
+    # hooks that themselves use the library (MC_OpsRe)
+    seen_re = set()
+    rex = res.extra.setdefault("reentrant_hooks", {"replays": 0, "identical_to_the_as_built_model": 0, "non_interfering": 0,
+                                                   "corrupting_as_the_model_predicts": 0, "nested_call_refused": 0, "cyclic_not_replayed": 0})
+    for out in m1_ops.run_re(res.tier):
+        if out["tlc"]["key"] not in seen_re:
+            seen_re.add(out["tlc"]["key"])
+            res.add_tlc(out["tlc"])
+        res.replayed += out["n"]
+        rex["replays"] += out["n"]
+        rex["identical_to_the_as_built_model"] += out["same"]
+        rex["non_interfering"] += out["noninterfering"]
+        rex["corrupting_as_the_model_predicts"] += out["corrupting"]
+        rex["nested_call_refused"] += out["nested_raises"]
+        rex["cyclic_not_replayed"] += out["cyclic_skipped"]
+        for att in out["attention"]:
+            v = att.get("verdict")
+            if v is None:
+                continue
+            if prop in v["violated"]:
+                res.violation(m1_ops.record(prop, out, att, "call with a re-entrant hook (the hook invocation plan.ak calls am.parent = av): "
+                                            "TLC judged the observation: violated %s; explained by the as-built model: %s" % (v["violated"], v["explained"])))
+            elif not v["violated"]:
+                res.drift += 1
+        if prop == "C18":
+            for d in out["lockstep_diff"]:
+                res.violation({"property": "C18", "module": "ops", "config": out["config"]["name"], "asrt": out["asrt"],
+                               "why": "NodeMixin and LightNodeMixin classes observed differently on the same call with a re-entrant hook",
+                               "pred": d["pred"], "mixin": d["mixin"], "light": d["light"]})
     if prop in ("C01", "C02", "C03"):
         q = m1_ops.run_quiet(res.tier)
         w = m1_ops.run_wide_quiet(res.tier)
@@ -148,7 +181,7 @@ def c01(res):
     res.sample(_sample_vector(outs) or "see replays_per_family")
     res.assumptions += [
         "forests over at most %d nodes; children sequences up to length %d" % (max(o["config"]["N"] for o in outs), max(o["config"]["MaxLen"] for o in outs)),
-        "hooks observe and raise but do not themselves mutate the tree",
+        "hooks observe and raise; hooks that themselves use the library make one call `m.parent = w` (MC_OpsRe, 3-4 nodes)",
         "the harness's projection through the public parent/children attributes is trusted",
     ]
 
